@@ -1,6 +1,7 @@
 import OpusProofs.CwrsCache
 import OpusProofs.Icdf
 import OpusProofs.LaplaceMain
+import OpusProofs.LaplaceP0
 /-
   Property C17 — "PVQ, Laplace and table-driven symbol codes are exact, prefix-free bijections".
 
@@ -231,5 +232,26 @@ theorem laplace_tiles (fs decay : Nat) (h : LaplaceOk fs decay = true) (fm : Nat
   rw [hd] at this
   injection this with this; injection this with this _
   exact this.symm
+
+
+/-! ## The `_p0` variants (celt/laplace.c:134-195; called from dnn/dred_*.c only) -/
+
+/-- `ec_laplace_decode_p0` inverts `ec_laplace_encode_p0`: fed the encoder's symbols (sign symbol, then the magnitude
+    symbols in runs of 7) followed by anything, the decoder returns the value and leaves exactly the rest unread. -/
+theorem laplace_p0_roundtrip (value : Int) (rest : List Nat) :
+    Opus.Laplace.decodeP0 (Opus.Laplace.encodeP0 value).1 ((Opus.Laplace.encodeP0 value).2 ++ rest) = some (value, rest) :=
+  OpusProofs.LaplaceP0.p0_roundtrip value rest
+
+example : Opus.Laplace.encodeP0 (-16) = (2, [7, 7, 1]) := by decide +kernel
+
+/-- The two ICDFs the `_p0` functions build at run time are exact codes for `ftb = 15` (so `icdf_tiles` applies to
+    them) whenever `0 < p0 ≤ 32766` and `decay < 32768`, and every symbol the encoder emits lies inside its table. -/
+theorem laplace_p0_icdfs_ok (p0 decay : Nat) (h1 : 0 < p0) (h2 : p0 ≤ 32766) (hd : decay < 32768) :
+    icdfOk 15 (Opus.Laplace.signIcdf p0) = true ∧ icdfOk 15 (Opus.Laplace.magIcdf decay) = true ∧
+    (Opus.Laplace.magIcdf decay).length = 8 ∧ ∀ v, ∀ s ∈ Opus.Laplace.magSymbols v, s < 8 :=
+  ⟨OpusProofs.LaplaceP0.signIcdf_ok p0 h1 h2, OpusProofs.LaplaceP0.magIcdf_ok decay hd, by simp [Opus.Laplace.magIcdf, Opus.Laplace.magIcdfFrom],
+   OpusProofs.LaplaceP0.magSymbols_lt⟩
+
+example : Opus.Laplace.magIcdf 16000 = [16000, 7812, 3814, 1862, 909, 443, 216, 0] := by decide
 
 end OpusProps.C17
